@@ -297,8 +297,7 @@ def rule_r7(ctx):
         ctx.r.violation(rid, key_of(ph, None, "split-binding"), "the result of split_uri is not bound to (scheme, netloc, path, query, fragment) of the request target", ph.loc())
 
 
-def rule_r8(ctx):
-    rid = "C07.R8"
+def rule_r8(ctx, rid="C07.R8"):
     ctx.r.rule(rid, "required keys: the environ literal contains PEP 3333's required variables, each bound to the request field of the same meaning")
     p = ctx.p
     f = p.func("task.WSGITask.get_environment")
